@@ -1,3 +1,4 @@
+import Sparrow.Proofs.KernelEquiv
 import Sparrow.Proofs.PipelineEnergy
 import Sparrow.Proofs.Support
 import Sparrow.Proofs.CollectLemmas
@@ -127,3 +128,38 @@ theorem runPipeline_prefix
   Sparrow.runPipeline_prefix eta thr room mat par src recv S' hS hD r r' hr hr' j d t hj hd ht
 
 end Sparrow.Props.C02
+
+namespace Sparrow.Props.C02.Kernels
+open Sparrow Sparrow.Generated.Kernels
+
+/-- `_energy_exchange_init_energy` as translated = order 0 of the model. -/
+theorem energyExchangeInitEnergy_eq (n_samples P D B : Nat) (energy_0 : Nat → Nat → Nat → ℝ)
+    (s0 : Nat) (distance_0 : Nat → ℝ) (c dt : ℝ) (j d b t : Nat) (hj : j < P) :
+    energyExchangeInitEnergy n_samples P D B energy_0 s0 distance_0 c dt j d b t =
+      (if t < n_samples then
+        (if t = ToBin.floorNat (distance_0 j / c / dt) then energy_0 j d b else 0) else 0) :=
+  Sparrow.energyExchangeInitEnergy_eq n_samples P D B energy_0 s0 distance_0 c dt j d b t hj
+
+/-- `_energy_exchange` as translated = the accumulated histogram `etc` of the model, for every
+    order `K`, band `b` and in-range cell.  Hypotheses: the array shapes are consistent (`P` patches
+    everywhere) and the index data are in range (what numpy needs not to raise). -/
+theorem energyExchange_eq (n_samples P D B : Nat) (energy_0 : Nat → Nat → Nat → ℝ)
+    (s0 : Nat) (distance_0 : Nat → ℝ) (s1 s2 : Nat) (distance_ij : Nat → Nat → ℝ)
+    (P' : Nat) (fft : Nat → Nat → Nat → Nat → ℝ) (s3 s4 : Nat) (p2o : Nat → Nat → Nat)
+    (c dt : ℝ) (K nVis s5 : Nat) (vp : Nat → Nat → Nat) (b : Nat)
+    (hwf : (exSceneOfArgs n_samples P D energy_0 distance_0 distance_ij fft p2o c dt nVis vp b).WF)
+    (j d t : Nat) (hj : j < P) (hd : d < D) (ht : t < n_samples) :
+    energyExchange n_samples P D B energy_0 s0 distance_0 s1 s2 distance_ij P P' D B fft s3 s4 p2o c dt K
+        nVis s5 vp j d b t =
+      etc (exSceneOfArgs n_samples P D energy_0 distance_0 distance_ij fft p2o c dt nVis vp b) K j d t :=
+  Sparrow.energyExchange_eq n_samples P D B energy_0 s0 distance_0 s1 s2 distance_ij P' fft s3 s4 p2o c dt K nVis s5 vp b hwf j d t hj hd ht
+
+/-- `_collect_receiver_energy` as translated = the model's receiver kernel (`np.roll`, D3). -/
+theorem collectReceiverEnergy_eq (P B S : Nat) (E : Nat → Nat → Nat → ℝ) (s0 : Nat) (dist : Nat → ℝ)
+    (c dt : ℝ) (s1 : Nat) (att : Nat → ℝ) (i b t : Nat) (hi : i < P) (hb : b < B) :
+    collectReceiverEnergy P B S E s0 dist c dt s1 att i b t =
+      collectRollF S (fun i => ToBin.ceilNat (dist i / c / dt)) (fun i => Real.exp (-(att b) * dist i))
+        (fun i t => E i b t) i t :=
+  Sparrow.collectReceiverEnergy_eq P B S E s0 dist c dt s1 att i b t hi hb
+
+end Sparrow.Props.C02.Kernels
